@@ -130,6 +130,42 @@ def tunnel_cfgs():
     return out
 
 
+# always part of the sample, so that every clause of the Rules is exercised non-vacuously for every seed
+ANCHORS = [
+    base_cfg(total=2, allowed="none", forcelist=True, factor=100, bmax=1000, method="POST"),        # retries of every kind, backoff
+    base_cfg(total=2, forcelist=True, jitter=500, method="GET", ka="close"),
+    base_cfg(total=2, read=0, forcelist=True, method="POST", route="forward"),                      # class of D2
+    base_cfg(total=1, status=1, ros=False, forcelist=True, method="PUT", level="pool"),
+    base_cfg(total=2, other=1, method="GET", route="tunnel", ka="close"),                           # `other` budget
+    base_cfg(how="false", total=0, method="GET"), base_cfg(how="int", total=1, method="DELETE", level="pool"),
+    base_cfg(how="default", total=0, method="POST", route="forward"),
+]
+FEATURES = ["retry-after:connect", "retry-after:read", "retry-after:status", "retry-after:other", "sleep:backoff",
+            "sleep:retry-after", "end:response", "end:maxretry", "end:raise", "reuse", "caller-retry-object"]
+
+
+def features(tr):
+    """Coverage bookkeeping only (never a verdict): which situations did this real run go through?"""
+    f, last, lastra = set(), None, -1
+    for e in tr["ev"]:
+        if e["ev"] == "att":
+            if last:
+                f.add("retry-after:" + last)
+            if not e["newconn"]:
+                f.add("reuse")
+        elif e["ev"] == "fault":
+            last = {"connect": "connect", "tunnel": "other", "send": "read", "recv": "read"}[e["stage"]]
+        elif e["ev"] == "reply":
+            last, lastra = ("status", e["ra"]) if e["kind"] == "resp" else ("read", -1)
+        elif e["ev"] == "sleep":
+            f.add("sleep:retry-after" if last == "status" and e["lo"] == lastra else "sleep:backoff")
+        elif e["ev"] == "end":
+            f.add("end:" + e["kind"])
+    if tr["cfg"]["how"] == "retry":
+        f.add("caller-retry-object")
+    return f
+
+
 def bounded(c):
     return policy(c)["total"] != NONE
 
@@ -145,7 +181,7 @@ def policy(c):
 
 def sample_cfgs(rng, n_random, n_forms, n_tunnel):
     """Pairwise cover of the Retry-object domain + seeded random rows + forms + tunnel family; ids 1.."""
-    rows = [base_cfg(**r) for r in pairwise(rng, DOM)]
+    rows = [dict(a) for a in ANCHORS] + [base_cfg(**r) for r in pairwise(rng, DOM)]
     for _ in range(n_random):
         rows.append(base_cfg(**{n: rng.choice(v) for n, v in DOM.items()}))
     forms = form_cfgs()
@@ -666,7 +702,7 @@ def _emit_shard(args):
     cfgs, maxlen, outcomes, defects, batch = args
     by_id = {c["id"]: c for c in cfgs}
     stats = {"emitted": 0, "executed": 0, "events": 0, "exp_mismatch": 0, "exp_mismatch_samples": [], "results": [],
-             "nontrivial": [], "samples": [], "d2": 0, "traces": 0, "exp_explained": 0}
+             "nontrivial": [], "samples": [], "d2": 0, "traces": 0, "exp_explained": 0, "features": {}}
     pending = []
 
     def flush():
@@ -679,8 +715,9 @@ def _emit_shard(args):
             mm = sc.get("_mismatch")
             if mm and v[4] != "drift":
                 # expectations were emitted by the Model as the code is (D2 enabled).  The only explained
-                # mismatch: the code follows the repaired design and stopped where that design stops.
-                explained = v[4] == "conforms" and tr["cfg"]["route"] == "forward" and tr["seq"] != sc["seq"]
+                # mismatch: the scripted history contains a D2 trigger and the code follows the repaired design.
+                explained = (v[4] == "conforms" and tr["cfg"]["route"] == "forward"
+                             and any(o in ("ReadEOF", "ReadReset") for o in sc["seq"]))
                 if explained:
                     stats["exp_explained"] += 1
                 else:
@@ -705,6 +742,8 @@ def _emit_shard(args):
             tr["scripted"] = sc["seq"]
             stats["executed"] += 1
             stats["events"] += len(tr["ev"])
+            for ft in features(tr):
+                stats["features"][ft] = stats["features"].get(ft, 0) + 1
             mm = expectation_met(sc, tr)
             if mm:
                 stats["exp_mismatch"] += 1
@@ -799,7 +838,8 @@ def run(rep):
         deep = [dict(c) for c in cfgs if bounded(c)][:160]
         plans = [(cfgs, 3, "OutcomesAll", "DefectD2"), (deep, 5, "OutcomesTiny", "DefectD2")]
     rep.extra["configurations"] = len(cfgs)
-    totals = {"emitted": 0, "executed": 0, "exp_mismatch": 0, "d2": 0, "events": 0}
+    totals = {"emitted": 0, "executed": 0, "exp_mismatch": 0, "exp_explained": 0, "d2": 0, "events": 0}
+    feats = {f: 0 for f in FEATURES}
     known_hits = 0
     with mp.Pool(J) as pool:
         for pcfgs, maxlen, outs, defects in plans:
@@ -814,6 +854,8 @@ def run(rep):
                     raise tlc.MachineryError("an emission shard produced no scenario")
                 for kk in totals:
                     totals[kk] += o[kk]
+                for ft, n in o["features"].items():
+                    feats[ft] = feats.get(ft, 0) + n
                 rep.traces += o["traces"]
                 rep.evaluations += o["executed"]
                 rep.nontrivial.update(o["nontrivial"])
@@ -836,9 +878,14 @@ def run(rep):
     rep.extra.update({"scenarios_emitted": totals["emitted"], "scenarios_executed": totals["executed"],
                       "random_scenarios": nrand, "trace_events": totals["events"],
                       "expectation_mismatches": totals["exp_mismatch"],
+                      "expectation_mismatches_explained_by_repaired_design": totals["exp_explained"],
+                      "situations_covered": feats,
                       "traces_following_deviation_D2": totals["d2"], "known_finding_traces": known_hits})
     # the emitted expectations describe the code as it is (D2 enabled): a mismatch that TLC explains by the
     # repaired design is fine (the defect was fixed), anything else was already reported as drift by TLC
+    missing = [f for f in FEATURES if not feats.get(f)]
+    if missing:
+        raise tlc.MachineryError(f"situations never reached by any executed scenario (vacuous run): {missing}")
     if totals["emitted"] < (1000 if quick else 50000):
         raise tlc.MachineryError(f"only {totals['emitted']} scenarios emitted")
     rep.exhaustive = True
